@@ -539,6 +539,10 @@ func mergePattern(a, b string) string {
 // Contains traverses through the registered handlers to see if
 // any of them matches the predicate test.
 func (m *Mux) Contains(test func(h Handler) bool) bool {
+	// The root node may have a handler of its own (the empty pattern)
+	if m.root.hs != nil && test(m.root.hs.Handler) {
+		return true
+	}
 	return contains(m.root, test)
 }
 
